@@ -955,3 +955,79 @@ def _effects_allow_lambda(fn):
 
 
 TARGETS['T8n'] = {'file': 'seg/sop.py', 'build': build_T8n, 'imports': ['HdVerif.Model.Effects']}
+
+
+def build_T8p(tree):
+    """Validation of the requested segment numbers at the head of `_get_pixels_by_seg_frame`: every number must be one the
+    object describes, and no number may be requested twice.  `np.all(np.isin(segment_numbers, self.segment_numbers))`,
+    `len(np.unique(segment_numbers))` and `len(segment_numbers)` are parameters (computed by the model: `List.all … contains`,
+    `(uniq segs).length`, `segs.length`).  Both checks must come before the output value / dtype head (T8b)."""
+    fn = _seg_frame(tree)
+    known = _top_if(fn, lambda t: 'np.isin(segment_numbers,self.segment_numbers)' in t, 'check of the requested numbers against the described ones')
+    dup = _top_if(fn, lambda t: 'np.unique(segment_numbers)' in t, 'check for repeated segment numbers')
+    i_max = _top_if(fn, lambda t: t == 'combine_segments', '`if combine_segments:` (max_output_val)')
+    if not (fn.body.index(known) < fn.body.index(i_max) and fn.body.index(dup) < fn.body.index(i_max)):
+        raise Unsupported('the validation of segment_numbers no longer precedes the output-value head')
+    for s in (known, dup):
+        if s.orelse or not (len(s.body) == 1 and isinstance(s.body[0], ast.Raise)):
+            raise Unsupported('validation of segment_numbers is no longer `if …: raise …`')
+    stmts = [copy.deepcopy(known), copy.deepcopy(dup), ast.parse('return len(segment_numbers)').body[0]]
+    for s in stmts:
+        ast.fix_missing_locations(s)
+    attrs = {
+        'np.all(np.isin(segment_numbers, self.segment_numbers))': ('bool', 'allKnown'),
+        'len(np.unique(segment_numbers))': ('int', 'nDistinct'),
+        'len(segment_numbers)': ('int', 'nRequested'),
+    }
+    text = translate_block(stmts, 'requestAdmitted', [], attrs,
+                           doc='head of `_get_pixels_by_seg_frame`: the requested numbers are all described and pairwise '
+                               'different (result = their count)')
+    return text, span_sha([known, dup])
+
+
+TARGETS['T8p'] = {'file': 'seg/sop.py', 'build': build_T8p}
+
+
+def build_T8q(tree):
+    """`_Image._check_indexing_with_source_frames` (image.py, read from the same tree): when reading by source instance / source
+    frame is refused — TILED_FULL, spatial locations not stated as preserved (unless `ignore_spatial_locations`), a frame with
+    several sources — and which of the five read entry points apply it, with which argument, before anything else."""
+    import os
+    repo = os.environ.get('HD_REPO', '/repo')
+    itree = ast.parse(open(os.path.join(repo, 'src', 'highdicom', 'image.py')).read())
+    fn = find_func(itree, '_Image._check_indexing_with_source_frames')
+    if [a.arg for a in fn.args.args] != ['self', 'ignore_spatial_locations']:
+        raise Unsupported('_check_indexing_with_source_frames no longer takes (ignore_spatial_locations)')
+    body = [copy.deepcopy(s) for s in strip_doc(fn.body)]
+    body.append(ast.parse('return ignore_spatial_locations').body[0])
+    for s in body:
+        ast.fix_missing_locations(s)
+    attrs = {
+        'self._is_tiled_full': ('bool', 'isTiledFull'),
+        'self._locations_preserved is None': ('bool', 'locationsUnknown'),
+        'self._locations_preserved == SpatialLocationsPreservedValues.NO': ('bool', 'locationsNotPreserved'),
+        'self._single_source_frame_per_frame': ('bool', 'singleSourcePerFrame'),
+    }
+    t1 = translate_block(body, 'sourceIndexingAllowed', [('ignore_spatial_locations', 'bool')], attrs,
+                         doc='`_Image._check_indexing_with_source_frames` (whole body; result = the flag)')
+    rows = []
+    for name in _READ_ENTRIES:
+        ef = find_func(tree, 'Segmentation.' + name)
+        b = strip_doc(ef.body)
+        calls = [(i, n) for i, s in enumerate(b) for n in ast.walk(s)
+                 if isinstance(n, ast.Call) and ast.unparse(n.func) == 'self._check_indexing_with_source_frames']
+        if not calls:
+            rows.append((name, 'none', ''))
+            continue
+        if len(calls) != 1 or calls[0][0] != 0 or not isinstance(b[0], ast.Expr):
+            raise Unsupported(f'{name}: _check_indexing_with_source_frames is no longer the first statement')
+        c = calls[0][1]
+        arg = ast.unparse(c.args[0]) if c.args else {k.arg: ast.unparse(k.value) for k in c.keywords}.get('ignore_spatial_locations', '')
+        rows.append((name, 'first', arg))
+    t2 = ('/-- which read entry point applies the check, where, and with which argument -/\n'
+          'def indexingChecked : List (String × String × String) :=\n  [' +
+          ',\n   '.join('("%s", "%s", "%s")' % r for r in rows) + ']')
+    return t1 + '\n\n' + t2, span_sha(strip_doc(fn.body)) + hashlib.sha256(repr(rows).encode()).hexdigest()[:12]
+
+
+TARGETS['T8q'] = {'file': 'seg/sop.py', 'build': build_T8q}
